@@ -143,8 +143,12 @@ class Ctx:
         ev = {"property_id": self.prop, "tier": self.tier, "seed": self.seed,
               "level": self.level, "coverage": cov, "assumptions": self.assumptions,
               "wall_s": round(wall, 2), "violations": len(seen)}
-        os.makedirs(os.path.join(VERIF, "evidence"), exist_ok=True)
-        with open(os.path.join(VERIF, "evidence", self.prop + ".json"), "w") as f:
+        # evidence describes /repo; a mutation self-test (VERIF_REPO_OVERRIDE) writes its record aside
+        evdir = os.path.join(VERIF, "evidence" if REPO == "/repo" else os.path.join("work", "evidence-override"))
+        if REPO == "/repo" and not self.prop.startswith("C"):
+            evdir = os.path.join(evdir, "extra")       # coverage beyond the listed properties (X01, X02, ...)
+        os.makedirs(evdir, exist_ok=True)
+        with open(os.path.join(evdir, self.prop + ".json"), "w") as f:
             json.dump(ev, f, indent=1, default=repr)
         print(f"{self.prop} {self.tier}: evaluations={self.evaluations} distinct={len(self.nontrivial)} "
               f"states={self.states} transitions={self.transitions} traces={self.traces} "
